@@ -131,10 +131,6 @@ def run(ctx, rep):
 
     for tr in (tr_e, tr_r):
         check_changed_flag(ctx, rep, "C04.2", tr)
-    # macros defined through the builder API reach expand_macros only after their inner macro calls are re-linked
-    relinker = "jaqalpaq.core.circuitbuilder.RebuildMacroInContextVisitor"
-    if relinker in ix.classes:
-        check_changed_flag(ctx, rep, "C04.2", visitor_transformer(ctx, relinker))
 
     # ------------------------------------------------------------ C04.3 / C04.4
     rep.rule("C04.3", "an argument-count comparison guarding a raise dominates the construction of the replacer", floor=1)
